@@ -136,9 +136,10 @@ func (l *entryLog) AddEntries(entries []raftpb.Entry) error {
 			// from the entries after the one in which the entry was found.
 			if l.nextEntryIdx > lastIdx {
 				logger.GetLogger().Info("clearCurrentFile slots", zap.Int("startSlot", lastIdx), zap.Int("endSlot", l.nextEntryIdx))
-				// WriteSlice prepends a 4-byte length to the buffer, so the buffer must be 4 bytes shorter than
-				// the range to clear: prefix and zeros together cover exactly [lastIdx, nextEntryIdx).
-				_ = l.current.entry.WriteSlice(lastIdx, l.nextEntryIdx, int64(entrySize*lastIdx), make([]byte, entrySize*l.nextEntryIdx-entrySize*lastIdx-unit32Size), false, true)
+				if err := zeroSlots(l.current.entry, lastIdx, l.nextEntryIdx); err != nil {
+					// nothing has been changed yet: the caller retries the whole batch
+					return errors.Wrapf(err, "while clearing slots of the current file")
+				}
 			}
 		} else {
 			// The existing entry was found in one of the previous file.
@@ -162,12 +163,16 @@ func (l *entryLog) AddEntries(entries []raftpb.Entry) error {
 			}
 			logger.GetLogger().Info("clearFirstFile slots", zap.Int("startSlot", lastIdx), zap.Int("endSlot", maxNumEntries),
 				zap.Int("fileLoc", firstIdx), zap.Int("fileNum", len(l.files)))
-			// WriteSlice prepends a 4-byte length to the buffer: without the correction the zeros would end 4 bytes
-			// past logFileOffset and wipe the length of the first payload of this file.
-			_ = l.current.entry.WriteSlice(lastIdx, maxNumEntries, int64(entrySize*lastIdx), make([]byte, logFileOffset-entrySize*lastIdx-unit32Size), false, true)
 			l.current.entry.setCurrent()
 			l.files = l.files[:firstIdx]
 			l.filesSync.Unlock()
+			// The file found is the current file from here on. Should clearing its slots fail, the log still answers
+			// from this file, and the retry of the caller finds the conflict in the current file and clears
+			// [lastIdx, nextEntryIdx) again.
+			l.nextEntryIdx = l.current.firstEmptySlot()
+			if err := zeroSlots(l.current.entry, lastIdx, maxNumEntries); err != nil {
+				return errors.Wrapf(err, "while clearing slots of the reused file")
+			}
 		}
 		l.nextEntryIdx = lastIdx
 	}
